@@ -253,8 +253,14 @@ def Row.host (r : Row) (obj ca : Nat) : Option RHost :=
   | none => none
   | some c => some ⟨obj, r.id, r.nodeAddr, c⟩
 
-/-- `isValidPeer` (a NULL inet cell gives a nil address; 0.0.0.0 is a non-empty address) -/
-def Row.validPeer (r : Row) : Bool := r.rpc != 0 && r.id != 0 && r.dc != 0 && r.rack != 0 && r.tokens != 0
+/-- `isValidPeer` as the code evaluates it on a row: a NULL inet cell gives a nil address (0.0.0.0 is a
+non-empty address); a NULL `host_id` cell is scanned into the zero UUID, whose string is
+"00000000-0000-0000-0000-000000000000", NOT "": the `hostId == ""` test never fires on a row that has
+the column, so a peer row without host id is accepted (as host id 0). -/
+def Row.validPeer (r : Row) : Bool := r.rpc != 0 && r.dc != 0 && r.rack != 0 && r.tokens != 0
+
+/-- what the property calls a valid peer row: all of rpc_address, host_id, data_center, rack, tokens present -/
+def Row.validPeerSpec (r : Row) : Bool := r.rpc != 0 && r.id != 0 && r.dc != 0 && r.rack != 0 && r.tokens != 0
 
 /-- `GetHosts`: local host, then the valid peers in row order; objects numbered `obj0, obj0+1, …` in row order.
 `none` = panic in `hostInfoFromMap`. -/
